@@ -153,8 +153,9 @@ def desc_real(f):
 
 
 class Spec:
-    def __init__(self, pool=None):
+    def __init__(self, pool=None, max_concurrent=MAX_CONCURRENT):
         self.pool = list(pool or POOL)
+        self.max_concurrent = max_concurrent
 
     def build(self):
         s = Sys()
@@ -181,7 +182,7 @@ class Spec:
             kind = POOL[name][0]
             st = s.stage.get(name)
             if st is None:
-                if started < MAX_CONCURRENT:
+                if started < self.max_concurrent:
                     acts.append(["hook", name, START[kind]])
             else:
                 for hook, _ in NEXT[kind].get(st, []):
@@ -210,7 +211,11 @@ class Spec:
         if size > s.off:
             with open(s.path, "rb") as fo:
                 fo.seek(s.off)
-                recs = [desc_real(f) for f in mio.FlowReader(fo).stream()]
+                try:
+                    for f in mio.FlowReader(fo).stream():
+                        recs.append(desc_real(f))
+                except Exception as e:  # what Save appended is not a sequence of flow records
+                    recs.append(["<unreadable: %s>" % type(e).__name__, False, False])
         s.off = size
         return recs, truncated, size
 
@@ -250,12 +255,18 @@ class Spec:
             bad("one_record_per_completion_of_matching_flow", "exception", None, exception=exc.split(":")[0])
             st["bad"][-1] = st["bad"][-1][:3] + (exc,)
         names = [r[0] for r in recs]
+        # what the whole file must look like from now on (checked by final()): whatever was appended stays, in place
+        if truncated or (op == "start" and a[1] == "overwrite"):
+            s.expected_file = []
+        if op == "stop":
+            s.expected_file.append(sorted(recs))
+        else:
+            s.expected_file += recs
 
         if op == "start":
             if a[1] == "overwrite":
                 if size != 0:
                     bad("nothing_before_completion_except_at_stop", "records_after_overwrite_start", [])
-                s.expected_file = []
             else:
                 if truncated:
                     bad("one_record_per_completion_of_matching_flow", "append_start_truncated_file", "file kept")
@@ -305,7 +316,6 @@ class Spec:
                     bad("open_flows_written_once_at_stop", "record_state_differs", desc_model(s, r[0]))
             if len(st["bad"]) == nbad:
                 st["ok"] += ["open_flows_written_once_at_stop", "non_matching_never_written"]
-            s.expected_file.append(sorted(recs))
             s.active = False
             s.must = set()
             st["nontrivial"] = was_active
@@ -358,7 +368,6 @@ class Spec:
         if len(st["bad"]) == nbad:
             st["ok"].append("one_record_per_completion_of_matching_flow" if (s.active and matches) else
                             "non_matching_never_written" if s.active else "nothing_before_completion_except_at_stop")
-        s.expected_file += [r for r in recs]
 
     def _drive_hook(self, s, name, hook):
         sa = s.sa
@@ -429,19 +438,30 @@ class Spec:
 
 
 def run(ctx):
-    depth = ctx.pick(7, 9)
+    # (flows taken from the pool per history, depth); each flow lives once, so the state space is finite: when a
+    # level adds no new state before the depth bound is reached, every history of any length has been covered
+    scopes = ctx.pick([(3, 7)], [(3, 14), (4, 8)])
     ctx.bounds = {
-        "depth": depth,
+        "scopes": [{"flows_per_history": n, "depth": d} for n, d in scopes],
         "flow_pool": {k: list(v) for k, v in POOL.items()},
-        "max_concurrent_flows": MAX_CONCURRENT,
         "lifecycles": {k: {st: [h for h, _ in v] for st, v in NEXT[k].items()} for k in NEXT},
         "filters": FILTERS,
         "control_actions": ["filter i", "stop", "start overwrite", "start append"],
     }
-    spec = Spec()
     try:
-        states, capped = explore.bfs(spec, depth, ctx.tally, log=ctx.log)
-        ctx.log("bfs done: %d states" % states)
+        for n, depth in scopes:
+            t = Tally()
+            states, capped = explore.bfs(Spec(max_concurrent=n), depth, t, log=ctx.log)
+            saturated = t.max_depth < depth  # no history reached the bound: the frontier ran empty first
+            if saturated:
+                # the state graph is cyclic (filter/stop/start can repeat for ever), so there are no leaf histories;
+                # count one validated history per distinct state instead
+                t.executions += states
+                t.note("scope with %d flows: frontier empty before depth %d, every reachable state expanded" % (n, depth))
+            ctx.tally.merge(t)
+            ctx.info["state_space_exhausted_with_%d_flows" % n] = saturated
+            ctx.log("bfs done (%d flows per history, depth %d): %d states%s" % (
+                n, depth, states, " - no new states: the whole reachable state space was covered" if saturated else ""))
     finally:
         if SCRATCH:
             shutil.rmtree(SCRATCH, ignore_errors=True)
